@@ -1,12 +1,34 @@
 import InjModel.Model.X86
 import InjModel.Lemmas.Bytes
 namespace Inj.X86
-open Inj
+open Inj Inj.Generated
+
+/-- `genBranch` with the constants extracted from the source substituted by the values the
+    ISA fragment expects (E9 / 48 B8 / FF E0, bias 5).  If the source constants change, this
+    `rfl` — and with it every theorem below — stops checking. -/
+def genBranchLit (mode : Mode) (ori target : Nat) : Res (List Nat) :=
+  let s : Int := toI64 ori + 5
+  let d : Int := toI64 target - wrapI64 s
+  if mode = Mode.debug ∧ (s ≥ 9223372036854775808 ∨ d < -9223372036854775808 ∨ d ≥ 9223372036854775808) then
+    Res.panic "arith-overflow"
+  else
+    let off := wrapI64 d
+    if -2147483648 ≤ off ∧ off ≤ 2147483647 then
+      Res.ok (0xE9 :: le32 (ofInt32 off))
+    else
+      Res.ok ([0x48, 0xB8] ++ le64 target ++ [0xFF, 0xE0])
+
+theorem genBranch_eq_lit : genBranch = genBranchLit := rfl
+
+theorem boolStub_eq (v : Bool) :
+    boolStub v = [0x48, 0xC7, 0xC0, (if v then 1 else 0), 0x00, 0x00, 0x00, 0xC3] := by
+  cases v <;> rfl
 
 /-- both encodings have length 5 or 12 -/
 theorem genBranch_len (mode : Mode) (ori target : Nat) (bs : List Nat)
     (h : genBranch mode ori target = Res.ok bs) : bs.length = 5 ∨ bs.length = 12 := by
-  unfold genBranch at h
+  rw [genBranch_eq_lit] at h
+  unfold genBranchLit at h
   simp only at h
   split at h
   · cases h
@@ -44,7 +66,7 @@ theorem rel32_lands (ori target : Nat) (ho : ori < 18446744073709551616) (ht : t
 end Inj.X86
 
 namespace Inj.X86
-open Inj
+open Inj Inj.Generated
 
 /-- Any state whose memory holds a generated branch at `ori` and whose rip is `ori`
     reaches exactly `target` in at most two steps; only rip and (long form) rax change. -/
@@ -54,7 +76,8 @@ theorem genBranch_run (mode : Mode) (ori target : Nat) (bs : List Nat)
     (m : Nat → Nat) (hm : Holds m ori bs) (c : Cpu) (hc : c.rip = ori) :
     (run m 1 c = some { c with rip := target }) ∨
     (run m 2 c = some { c with rip := target, gpr := setReg c.gpr 0 target }) := by
-  unfold genBranch at h
+  rw [genBranch_eq_lit] at h
+  unfold genBranchLit at h
   simp only at h
   split at h
   · cases h
